@@ -2,7 +2,7 @@
    The closed form is evaluated by [cf_fast] (fractions reduced at every step); it is proved
    equal to the model's [cf] in Proofs/C09_Check.v. *)
 Require Import Cherab.Common.Qx.
-Require Import Cherab.Model.C09_Balance.
+Require Import Cherab.Model.C09_Balance Cherab.Model.C09_Interp.
 From Coq Require Import Qabs.
 Open Scope Q_scope.
 
@@ -60,10 +60,10 @@ Inductive out :=
 | ONeut (slack : Q) (ztol : Q) (sp : list (list Q)) (d : list Q)
     (* match_plasma_neutrality at one point; ztol = absolute noise allowed around zero (0 for the direct
        entry points, interpolation rounding of the neighbouring knots for interpolated ones) *)
-| OLerp (slack : Q) (w : Q) (other : list Q) (sa sb : Q) (v : list Q)
-    (* value of a linear interpolator between this point (weight 1-w, its model values times sa) and a
-       neighbouring point whose model values are [other] (weight w, times sb); sa = sb = 1 for fractions,
-       the element densities of the two knots for from_elementdensity *)
+| OLerp (slack : Q) (knots : list Q) (x : Q) (k : nat) (other : list Q) (sa sb : Q) (v : list Q)
+    (* value at x of a linear interpolator over [knots]: the model locates x (Model/C09_Interp.locate: segment k,
+       weight w) and blends this point's model values times sa (weight 1-w) with the model values [other] of knot
+       k+1 times sb; sa = sb = 1 for fractions, the element densities of the two knots for from_elementdensity *)
 | OMatrix (rows : list (list Q)) (rhs : list Q).      (* the arguments handed to lsq_linear *)
 
 Definition absle (a b tol : Q) : bool := Qle_bool (Qabs (a - b)) tol.
@@ -103,12 +103,17 @@ Definition check_out (p : point) (f : list Q) (tol0 : Q) (o : out) : bool :=
       && forallb2 (fun m v => absle (m * ntot) v (tol * ntot + ztol)) f d
       (* and the values are the model's match_neutrality_point *)
       && forallb2 (fun m v => absle (m * n_i) v (Qred (tol * amp * n_i + ztol))) f d
-  | OLerp slack w other sa sb v =>
-      let tol := (let t1 := base_tol other in if Qle_bool tol0 t1 then t1 else tol0) + slack in
-      let smax := if Qle_bool sa sb then sb else sa in
-      forallb2 (fun ab x => absle ((1 - w) * (fst ab * sa) + w * (snd ab * sb)) x (tol * smax))
-               (combine f other) v
-      && Nat.eqb (length other) (length f) && Nat.eqb (length v) (length f)
+  | OLerp slack knots x k other sa sb v =>
+      match locate knots x 0 with
+      | Some (k', w) =>
+          let tol := (let t1 := base_tol other in if Qle_bool tol0 t1 then t1 else tol0) + slack in
+          let smax := if Qle_bool sa sb then sb else sa in
+          Nat.eqb k' k
+          && forallb2 (fun ab y => absle (blend (fun _ => fst ab * sa) (fun _ => snd ab * sb) w O) y (tol * smax))
+                      (combine f other) v
+          && Nat.eqb (length other) (length f) && Nat.eqb (length v) (length f)
+      | None => false
+      end
   | OMatrix rows rhs =>
       let m := balance_matrix (pZ p) (rate0 (p_ion p)) (rate1 (p_rec p)) (option_map rate1 (p_cx p)) (p_nd p) (p_ne p) in
       forallb2 (fun rm ri => forallb2 (fun a b => close rel_matrix 0 a b) rm ri) m rows
